@@ -382,7 +382,7 @@ func checkC07(r *verdict.Run) {
 	r.Rule = "(1) lifetime-phase matrix: every command template (the canonical invocations plus 55 size-changing in-place modifications and replacing forms whose target is among their operands) x key type x {deadline 100 s ahead, deadline passed but object still stored (PEXPIREAT 1 / EXPIRE -1 / EXPIREAT 1), operand keys expired}: an expired key must behave as missing for every command, TTL preserved/cleared per command; " +
 		"(2) EXPIRE/PEXPIRE/EXPIREAT/PEXPIREAT x {none,NX,XX,GT,LT} x {no deadline, later, earlier} x {positive, zero, negative} and TTL/PTTL/EXPIRETIME/PEXPIRETIME/PERSIST/GETEX/SET option sequences; " +
 		"(2b) every deadline-setting form (EXPIRE family, SET/GETEX EX/PX/EXAT/PXAT, SETEX, PSETEX) with extreme values around 292 years, year 9999, 2^53 ms and the int64 limits, positive and negative: stored or refused as Redis does, never a vanished or persistent key; " +
-		"(2c) commands queued in MULTI while the key is alive and executed by EXEC after its deadline, and blocking moves served after their destination expired while they waited: deadlines are judged when a command executes; " +
+		"(2c) commands queued in MULTI while the key is alive and executed by EXEC after its deadline, and blocking moves served after their destination expired while they waited: deadlines are judged when a command executes; (2d) after a clean shutdown and restart on a persist path persistent keys still report -1 and behave as persistent, volatile keys keep their deadline; " +
 		"(3) transition batches: keys of 4 types with 120-400 ms TTLs read by rotating commands across the deadline. All against the reference model with an interval clock: an observation is judged only when its [send, receive] interval lies entirely before or after the deadline interval (no wall-clock tolerance constants). " +
 		"distinct = matrix cells + (command, flag, state) tuples + transition reads"
 	c07PhaseMatrix(r)
@@ -391,6 +391,7 @@ func checkC07(r *verdict.Run) {
 	c07Transition(r, tierPick(r, 16, 200))
 	c07QueuedAcrossDeadline(r, tierPick(r, 16, 160))
 	c07BlockedAcrossDeadline(r)
+	c07Restart(r)
 	runDiffSequences(r, tierPick(r, 100, 3000), func(rng *rand.Rand) int { return 40 + rng.Intn(40) },
 		[]string{"e0", "e1", "e2", "e3"}, [][]string{{"SET", "e0", "v", "EX", "100"}, {"RPUSH", "e1", "a"}}, c07Gen)
 	r.Assume("client and server share one machine clock (same host); an observation whose interval overlaps a deadline interval is skipped (counted as ambiguous_time_*), never judged")
@@ -626,4 +627,65 @@ func c07BlockedAcrossDeadline(r *verdict.Run) {
 		r.Report("blocked-across-deadline/expired-string-in-the-way", "BLPOP on a name whose string value had expired was not served by a later push", nil)
 	}
 	r.Distinct("blocked-across-deadline/expired-string")
+}
+
+// c07Restart: deadlines (and their absence) survive a clean shutdown and restart on a persist path: keys without an
+// expiry still report -1 and behave as persistent for PERSIST / EXPIRE NX|XX|GT|LT, keys with a deadline keep it.
+func c07Restart(r *verdict.Run) {
+	p := newC19Env(r)
+	if p == nil {
+		return
+	}
+	defer p.cleanup()
+	c, e, cn, err := p.start()
+	if err != nil {
+		r.Inconclusive("infra: " + err.Error())
+		return
+	}
+	at := strconv.FormatInt(time.Now().Add(5000*time.Second).UnixMilli(), 10)
+	for _, cmd := range [][]string{{"SET", "ps", "v"}, {"RPUSH", "pl", "a"}, {"HSET", "ph", "f", "v"}, {"SADD", "pt", "m"}, {"SET", "vs", "v", "PXAT", at}, {"RPUSH", "vl", "a"}, {"PEXPIREAT", "vl", at},
+		{"SELECT", "3"}, {"SET", "ps3", "v"}, {"SET", "vs3", "v", "PXAT", at}, {"SELECT", "0"}} {
+		cn.Do(cmd...)
+	}
+	cn.Close()
+	if _, err := c.CloseEmu(e.name, 15*time.Second); err != nil {
+		c.Stop()
+		r.Inconclusive("Close did not return")
+		return
+	}
+	c.Stop()
+	c2, _, cn2, err := p.start()
+	if err != nil {
+		r.Inconclusive("restart failed: " + err.Error())
+		return
+	}
+	defer c2.Stop()
+	expectInt := func(sig string, want int64, args ...string) {
+		v, err := cn2.Do(args...)
+		r.Eval(1)
+		if err != nil || v.Kind != ':' || v.Int != want {
+			r.Report("restart/"+sig, fmt.Sprintf("after a clean shutdown and restart: %s -> %s (expected %d)", cmdString(args), v, want), nil)
+		}
+	}
+	for _, k := range []string{"ps", "pl", "ph", "pt"} {
+		expectInt("persistent-key-reports-a-deadline/TTL", -1, "TTL", k)
+		expectInt("persistent-key-reports-a-deadline/PTTL", -1, "PTTL", k)
+		expectInt("persistent-key-reports-a-deadline/EXPIRETIME", -1, "EXPIRETIME", k)
+		expectInt("persistent-key-reports-a-deadline/PEXPIRETIME", -1, "PEXPIRETIME", k)
+		expectInt("persistent-key-treated-as-volatile/PERSIST", 0, "PERSIST", k)
+		expectInt("persistent-key-treated-as-volatile/EXPIRE+XX", 0, "EXPIRE", k, "100", "XX")
+		expectInt("persistent-key-treated-as-volatile/EXPIRE+GT", 0, "EXPIRE", k, "100", "GT")
+		expectInt("persistent-key-treated-as-volatile/EXPIRE+NX", 1, "EXPIRE", k, "100", "NX")
+	}
+	atMs, _ := strconv.ParseInt(at, 10, 64)
+	for _, k := range []string{"vs", "vl"} {
+		expectInt("deadline-changed/PEXPIRETIME", atMs, "PEXPIRETIME", k)
+		expectInt("volatile-key-treated-as-persistent/EXPIRE+NX", 0, "EXPIRE", k, "100", "NX")
+		expectInt("volatile-key-treated-as-persistent/PERSIST", 1, "PERSIST", k)
+		expectInt("volatile-key-treated-as-persistent/TTL-after-PERSIST", -1, "TTL", k)
+	}
+	cn2.Do("SELECT", "3")
+	expectInt("persistent-key-reports-a-deadline/TTL", -1, "TTL", "ps3")
+	expectInt("deadline-changed/PEXPIRETIME", atMs, "PEXPIRETIME", "vs3")
+	r.Distinct("restart/deadlines")
 }
